@@ -62,7 +62,7 @@ func TestC15(t *testing.T) {
 		mc := NewMachine("C15", sch, column.Options{Writer: multiLogger{log, ch}})
 		defer mc.Close()
 		defer mc.Guard(t)
-		cfg := TxnCfg{Prop: "C15", MaxSteps: 10, Peeks: true, Rollback: true, FailInsert: true, Deletes: true, Inserts: true, Merges: true, OwnUpdates: true, KeyOps: true, Direct: true,
+		cfg := TxnCfg{Prop: "C15", MaxSteps: 10, Peeks: true, Rollback: true, FailInsert: true, PropagateInsertFailure: true, Deletes: true, Inserts: true, Merges: true, OwnUpdates: true, KeyOps: true, Direct: true,
 			NoStoreOnDel: KFActive("f11-store-and-delete-same-txn"), NoOpAfterLenMerge: KFActive("f15-difflen-merge-reorder")}
 		sc := newStreamChecker()
 		interesting := false
